@@ -374,6 +374,26 @@ func checkRuleCase(c *Ctx, ev *evaluator, cs *evalCase, key string) {
 		c.Check("R12.4", key+": a production in the handle list is the object registered with AddProduction", placedPos[i], o != nil && registered[o],
 			"the production carried to a `< >` handle is not the one added to the grammar: the precedence would refer to a production the grammar does not contain")
 	}
+	if len(placed) == 0 {
+		// the work may have moved into a function of the package that the clause calls: then this rule says nothing here
+		viaHelper := ""
+		for _, st := range cs.clause.Body {
+			ast.Inspect(st, func(n ast.Node) bool {
+				if call, ok := n.(*ast.CallExpr); ok {
+					if fo, ok := objOf(info, call.Fun).(*types.Func); ok && fo.Pkg() == ev.pkg.Types && fo.Name() != "AddProduction" {
+						if sig, ok := fo.Type().(*types.Signature); ok && sig.Results().Len() >= 1 {
+							viaHelper = fo.Name()
+						}
+					}
+				}
+				return true
+			})
+		}
+		if viaHelper != "" {
+			c.Undecided("R12.4", key+": the rule contributes productions to its handle list", cs.clause.Pos(), "the clause hands the work to "+viaHelper+", which this rule does not look into")
+			return
+		}
+	}
 	c.Check("R12.4", key+": the rule contributes productions to its handle list", cs.clause.Pos(), len(placed) >= 1, "nothing is placed in the returned production list")
 	// every registered production is placed, unconditionally: registration and placement are sibling statements
 	var walkBlocks func(list []ast.Stmt)
